@@ -36,12 +36,17 @@ theorem noNaN_scale {a : Bounds (Ext K)} (c : K) (h : NoNaN a) : NoNaN (a.scale 
   · simp only [Bounds.scale, a_eq, a_zero, Ext.eq, ef_eq, hc, decide_false, Bool.false_eq_true, if_false, a_gt, a_mul]
     split <;> exact ⟨noNaN_mul_fin (by first | exact h.1 | exact h.2) hc, noNaN_mul_fin (by first | exact h.2 | exact h.1) hc⟩
 
+theorem noNaN_div_fin {a : Ext K} {d : K} (ha : Ext.isNaN a = false) (hd : d ≠ 0) :
+    Ext.isNaN (Ext.div a (.fin d)) = false := by
+  rcases lt_or_gt_of_ne hd with h | h
+  · cases a <;> simp_all [Ext.div, Ext.isNaN, Ext.sign, Ext.ofSign, sgn_neg h]
+  · cases a <;> simp_all [Ext.div, Ext.isNaN, Ext.sign, Ext.ofSign, sgn_pos h]
+
 theorem noNaN_divBy {a : Bounds (Ext K)} (d : K) (h : NoNaN a) : NoNaN (a.divBy (.fin d)) := by
   by_cases hd : d = 0
   · subst hd; simp [Bounds.divBy, Ext.eq, NoNaN, Bounds.unbounded, Ext.isNaN]
-  · have : Ext.div (.fin 1) (.fin d) = (.fin (1 / d) : Ext K) := by simp [Ext.div, hd]
-    simp only [Bounds.divBy, a_eq, a_zero, Ext.eq, ef_eq, hd, decide_false, Bool.false_eq_true, if_false, a_div, a_one, this]
-    exact noNaN_scale _ h
+  · simp only [Bounds.divBy, a_eq, a_zero, Ext.eq, ef_eq, hd, decide_false, Bool.false_eq_true, if_false, a_gt, a_div]
+    split <;> exact ⟨noNaN_div_fin (by first | exact h.1 | exact h.2) hd, noNaN_div_fin (by first | exact h.2 | exact h.1) hd⟩
 
 theorem noNaN_fmax {a b : Ext K} (ha : Ext.isNaN a = false) (hb : Ext.isNaN b = false) :
     Ext.isNaN (Ext.fmax a b) = false := by
